@@ -18,6 +18,9 @@ Driver for property C03.  One operation per line (tokens separated by single spa
   parse <byteshex> <fds>      parseMessage; fds = N | - (empty list) | comma separated integers
       -> `ok type=<n> serial=<n> er=<T|F> as=<T|F> path=<attr> … unix_fds=<attr> hdr=<n> pad=<hex> body=<hex>`
        | `err kind=<ExceptionName>`
+  remarshal <byteshex> <fds> <sender>      what the bus does with a received message: parseMessage, `msg.sender = sender`,
+      `msg.endian = raw[0]`, `msg._marshal(False, rawBody=msg.rawBody)`       (sender = s<strhex>)
+      -> `ok raw=<hex>` | `err kind=<ExceptionName>`
   spec <l|B> <type> <flags> <serial> <n> (<code> <typecode> <value>)*n <bodyhex>      Spec.encodeMsg
       value = decimal unsigned integer for a fixed-size type, s<strhex> for s/o/g
       -> `<byteshex>`
@@ -237,6 +240,23 @@ def parseStep (toks : List String) : String :=
     | _, _ => "bad-input"
   | _ => "bad-input"
 
+def remarshalStep (toks : List String) : String :=
+  match toks with
+  | [h, f, snd] =>
+    match hexToBytes? h, fds? f, optStr? snd with
+    | some raw, some fds, some sender =>
+      let T := Gen.Message.tables
+      match raw, (parseBoth raw fds).1 with
+      | _, .error e => "err kind=" ++ pyErrName e
+      | [], _ => "err kind=IndexError"
+      | b0 :: _, .ok m =>
+        let m1 := { m with attrs := setAttr m.attrs .sender (strAttr sender) }
+        match remarshal T T.maxMsgLen m1 b0.toNat m1.rawBody with
+        | .error e => "err kind=" ++ pyErrName e
+        | .ok m2 => "ok raw=" ++ bytesToHex m2.raw
+    | _, _, _ => "bad-input"
+  | _ => "bad-input"
+
 def basicOfTok? (t : String) : Option Basic :=
   match t.toList with
   | [c] => Basic.ofCode? c
@@ -276,6 +296,7 @@ def step (line : String) : String :=
   match words line with
   | "build" :: toks => buildStep toks
   | "parse" :: toks => parseStep toks
+  | "remarshal" :: toks => remarshalStep toks
   | "spec" :: toks => specStep toks
   | _ => "bad-input"
 
